@@ -308,6 +308,20 @@ def r15_4(ctx, counts) -> RuleResult:
     return res
 
 
+def _dict_names(f: FuncInfo) -> set[str]:
+    """names of the dict under construction in a method of XPathMap: `_map`, or a local that is
+    later stored as self._map or returned by _evaluate"""
+    dicts = {'_map'}
+    for x in walk_local(f.node):
+        if isinstance(x, ast.Assign) and isinstance(x.value, ast.Name) and any(
+                isinstance(t, ast.Attribute) and t.attr == '_map' for t in x.targets):
+            dicts.add(x.value.id)
+        elif isinstance(x, ast.Return) and isinstance(x.value, ast.Name) \
+                and f.name == '_evaluate':
+            dicts.add(x.value.id)
+    return dicts
+
+
 def r15_6(ctx, counts) -> RuleResult:
     """op:same-key vs Python dict equality: booleans are not the numbers 1 and 0"""
     model: Model = ctx.model
@@ -323,9 +337,10 @@ def r15_6(ctx, counts) -> RuleResult:
     cls = model.find_class('XPathMap')
     n = 0
     for name, f in sorted(cls.methods.items()):
+        dn = _dict_names(f)
         stores = [x for x in walk_local(f.node) if isinstance(x, (ast.Assign, ast.AugAssign))
                   for t in (x.targets if isinstance(x, ast.Assign) else [x.target])
-                  if isinstance(t, ast.Subscript) and dotted(t.value).split('.')[-1] == '_map'
+                  if isinstance(t, ast.Subscript) and dotted(t.value).split('.')[-1] in dn
                   and isinstance(t.slice, ast.Name)]
         if not stores:
             continue
@@ -446,6 +461,129 @@ def r15_7(ctx, counts) -> RuleResult:
         raise AnalysisError(f'map key comparisons located: {n} < 3')
     return res
 
+def r15_8(ctx, counts) -> RuleResult:
+    """each store of an atomized key happens on the branch where the NaN and duplicate cases
+    were excluded (per store, path-sensitive; R15.6 is per function)"""
+    model: Model = ctx.model
+    res = RuleResult(
+        'R15.8', 'KEY-STORE-CLASSIFIED',
+        'The entries of an XPathMap live in a Python dict; the keys are distinct under '
+        'op:same-key only because every builder classifies each key before it stores it: NaN '
+        '(not equal to itself for the dict) goes to its own slot and a key already present '
+        'raises XQDY0137. For every store `<..>_map[k] = …` with k a bare name in a method of '
+        'XPathMap the branch facts that hold on every path to the store contain the negation '
+        'of a test on math.isnan(k) and the negation of `k in <dict>`. A second store loop '
+        'added beside the classified one (a "keys are known to be distinct" fast path) puts '
+        'two NaN entries, or a NaN entry that no lookup finds, in a map built by map:put / '
+        'map:merge.')
+    cls = model.find_class('XPathMap')
+    n = 0
+    for name, f in sorted(cls.methods.items()):
+        stores = []
+        dicts = _dict_names(f)
+        for x in walk_local(f.node):
+            if isinstance(x, (ast.Assign, ast.AugAssign)):
+                for t in (x.targets if isinstance(x, ast.Assign) else [x.target]):
+                    if isinstance(t, ast.Subscript) and isinstance(t.slice, ast.Name) \
+                            and dotted(t.value).split('.')[-1] in dicts:
+                        stores.append((x, t))
+        if not stores:
+            continue
+        cfg = CFG(f.node)
+        facts = branch_facts(cfg)
+        for x, t in stores:
+            k = t.slice.id                                   # type: ignore[attr-defined]
+            holder = next((nd for nd in cfg.nodes if nd.kind == 'stmt' and nd.ast is x), None)
+            if holder is None:
+                raise AnalysisError(f'{f.key}: store L{x.lineno} not found in the CFG')
+            fs = facts[holder.id]
+            nan = any(fa.startswith('-') and (f'math.isnan({k})' in fa or f'isnan({k})' in fa)
+                      for fa in fs)
+            dup = any(fa.startswith('-') and fa[1:].startswith(f'{k} in ') for fa in fs)
+            n += 1
+            res.instances.append(f'{f.key}: L{x.lineno} `{stmt_text(x)[:40]}` NaN excluded={nan} '
+                                 f'duplicate excluded={dup}')
+            if nan and dup:
+                res.ok()
+            else:
+                what = 'NaN' if not nan else 'an already stored key'
+                res.fail(finding('R15.8', f, x, f'unclassified key store {stmt_text(t)}',
+                                 f'`{stmt_text(x)[:50]}` is reached on a path where {what} was '
+                                 f'not excluded (facts: {sorted(fs)}): the dict then holds a '
+                                 f'key the lookups (which treat NaN through the separate slot '
+                                 f'and keys as distinct) cannot find or holds it twice'))
+    counts['classified_key_stores'] = n
+    builders = {i.split(':')[1].split()[0].rstrip(':') for i in res.instances}
+    if not {'XPathMap.__init__', 'XPathMap._evaluate'} <= builders:
+        raise AnalysisError(f'key stores located only in {sorted(builders)}: both builders of '
+                            f'XPathMap (__init__, _evaluate) store keys on the pinned tree')
+    return res
+
+
+FRESH_CALLS = {'dict', 'list', 'xlist', 'sorted', 'tuple', 'OrderedDict', 'self._evaluate'}
+
+
+def r15_9(ctx, counts) -> RuleResult:
+    """the storage of a map/array is a container built by the object itself"""
+    model: Model = ctx.model
+    res = RuleResult(
+        'R15.9', 'STORAGE-OWNED',
+        'A map or array is a value: nothing outside it holds a reference to its dict / list. '
+        'Every assignment to the storage attribute (XPathMap._map, XPathArray._array) in the '
+        'package has a fresh container on its right-hand side: a display or comprehension, a '
+        'call of dict/list/xlist/sorted or of the object\'s own _evaluate, or a local name '
+        'whose every assignment in the function is one of those. A parameter (or an attribute '
+        'or element of another object) stored as is makes the caller\'s dictionary the map: '
+        'map:merge keeps filling or reusing it afterwards.')
+    n = 0
+    for mod in model.modules.values():
+        if not mod.name.startswith('elementpath'):
+            continue
+        for f in mod.functions.values():
+            params = {a.arg for a in f.node.args.args + f.node.args.kwonlyargs
+                      + f.node.args.posonlyargs}
+            for x in walk_local(f.node):
+                tgts = []
+                if isinstance(x, ast.Assign):
+                    tgts, val = x.targets, x.value
+                elif isinstance(x, ast.AnnAssign) and x.value is not None:
+                    tgts, val = [x.target], x.value
+                for t in tgts:
+                    if not (isinstance(t, ast.Attribute) and t.attr in STORAGE_ATTRS.values()):
+                        continue
+                    if isinstance(val, ast.Constant) and val.value is None:
+                        continue
+                    n += 1
+
+                    def fresh(e: ast.expr, depth: int = 0) -> bool:
+                        if isinstance(e, (ast.Dict, ast.List, ast.DictComp, ast.ListComp)):
+                            return True
+                        if isinstance(e, ast.Call):
+                            return dotted(e.func) in FRESH_CALLS
+                        if isinstance(e, ast.Name) and e.id not in params and depth < 3:
+                            defs = [y.value for y in walk_local(f.node)
+                                    if isinstance(y, (ast.Assign, ast.AnnAssign))
+                                    and y.value is not None
+                                    for tt in (y.targets if isinstance(y, ast.Assign)
+                                               else [y.target])
+                                    if isinstance(tt, ast.Name) and tt.id == e.id]
+                            return bool(defs) and all(fresh(d, depth + 1) for d in defs)
+                        return False
+                    ok = fresh(val)
+                    res.instances.append(f'{f.key}: L{x.lineno} `{stmt_text(x)[:50]}` fresh={ok}')
+                    if ok:
+                        res.ok()
+                    else:
+                        res.fail(finding('R15.9', f, x, f'{stmt_text(t)} = {stmt_text(val)[:30]}',
+                                         f'`{stmt_text(x)[:60]}` makes a container that the '
+                                         f'caller still references the storage of the '
+                                         f'map/array: a later write of the caller changes a '
+                                         f'value that must be immutable'))
+    counts['storage_assignments'] = n
+    if n < 5:
+        raise AnalysisError(f'only {n} assignments to map/array storage located (5 confirmed)')
+    return res
+
 
 def run(ctx) -> dict:
     counts: dict[str, int] = {}
@@ -461,6 +599,8 @@ def run(ctx) -> dict:
     results.append(r15_4(ctx, counts))
     results.append(r15_6(ctx, counts))
     results.append(r15_7(ctx, counts))
+    results.append(r15_8(ctx, counts))
+    results.append(r15_9(ctx, counts))
     return {
         'results': results, 'counts': counts,
         'explanation':
